@@ -91,9 +91,9 @@ def run(ch, build):
         steps = [{"op": "open", "user": "admin", "password": b"secret".hex(), "priv": 4, "lookup": True, "suites": [list(su)]}]
         for j in range(6):
             steps.append({"op": "cmd", "conn": "session", "cmd": ch.rng.choice(pool),
-                          "script": ch.rng.choice([["slow:260"], ["slow:230"], ["busy", "slow:250"], ["slow:240", "busy", "ok"], ["ok"], ["c3", "ok"]])})
-        # (per-attempt timeout 450 ms, replies after a good half of it: wide margins on both sides, the run shares the machine)
-        scns.append({"bmc": conn.default_bmc(seed=330 + k, suites=[[100, su[0], su[1], su[2]]]), "timeout_ms": 450, "udp": True, "steps": steps})
+                          "script": ch.rng.choice([["slow:520"], ["slow:470"], ["busy", "slow:500"], ["slow:480", "busy", "ok"], ["ok"], ["c3", "ok"]])})
+        # (per-attempt timeout 900 ms, replies after a good half of it: wide margins on both sides, the run shares the machine)
+        scns.append({"bmc": conn.default_bmc(seed=330 + k, suites=[[100, su[0], su[1], su[2]]]), "timeout_ms": 900, "udp": True, "steps": steps})
     outs = conn.run_scenarios(scns, spread=True)
     hist.replay(ch, scns, outs, (Hook(),), "c09")
     # session-less histories
